@@ -251,6 +251,8 @@ def Op.sym (a : AEnv) (s : SEnv) (n : Nat) : Op → Poly
     if (aget a y).hi < 2^(aget a x).tz ∨ (aget a x).hi < 2^(aget a y).tz then (sget s x).add (sget s y)
     else [(1, [Atom.var n])]
   | .xor _ _ => [(1, [Atom.var n])]
+  | .lt _ _ => [(1, [Atom.var n])]
+  | .eq _ _ => [(1, [Atom.var n])]
 
 def SSat (e : Env) (s : SEnv) : Prop :=
   e.length = s.length ∧ ∀ i, i < s.length → (sget s i).val e = (get e i : Int) ∧ (sget s i).scoped e.length = true
@@ -363,6 +365,8 @@ theorem sym_sound (e : Env) (a : AEnv) (s : SEnv) (h : Sat e a) (hs : SSat e s) 
       | inr hc => rw [Nat.or_comm, or_eq_add_of_tz hy3 (by omega)]; push_cast; omega
     · exact self
   | xor x y => exact self
+  | lt x y => exact self
+  | eq x y => exact self
 
 /-- symbolic + interval run; every stored polynomial is normalised and checked to be well scoped -/
 def srun : List Op → AEnv → SEnv → Option (AEnv × SEnv)
